@@ -8,35 +8,43 @@ from vlib import dtcodec, dicodec, gen
 from vlib.dtcodec import fj, bits2f
 
 META = {
-    'level_text': 'Theorems for every lawful float carrier and every datatype tree of any depth: rebuild_equiv (get_datatype of the '
-                  'exported datainfo of an exportable tree is the tree itself up to the enum name and the client mark, exports the same '
-                  'datainfo again, and validate / import_value are the same functions), copy_equiv (the same for copy()), copyH_fresh / '
-                  'copyH_frame on an explicit object heap (no object of the copy is reachable from anything allocated before; mutating '
-                  'the copy leaves every older object unchanged), compatible_sound (a passing check implies every value of the first '
-                  'value set is accepted by the second type), compatible_complete (the check passes on the nested pairings of the '
-                  'statement), table facts of DATATYPES by decide.  Models tied to frappy/datatypes.py by a correspondence run on the '
-                  'real classes; Lean monitors judge every observed rebuild, copy (sharing partition, mutation) and verdict, with a '
-                  'witness search through the real validate for passing verdicts.',
-    'level_note': 'Trusted: Lean kernel + axioms propext/Classical.choice/Quot.sound; LawfulFloatOps for binary64 and the additional '
-                  'laws of CompatLaws (tolerance band is order convex for relative_resolution <= 1, x - p <= x <= x + p for p >= 0, '
-                  'integers between convertible integers convert, finiteness between finite bounds), proved for the exact carrier Rat and '
-                  'assumed for binary64; scaled limits are grid aligned and within the grid-law region (|index| <= 2^31).',
+    'level_text': 'Theorems for every lawful float carrier and every datatype tree of any depth: rebuild_equiv_partial (get_datatype of '
+                  'the exported datainfo of a well-formed exportable tree is the tree itself up to the enum name and the client mark, it '
+                  'exports the identical datainfo again, validate / import_value are the same functions), copy_equiv (copy() of such a tree '
+                  'is the tree itself), copyH_fresh / copyH_frame on an explicit object heap (no object of the copy is reachable from '
+                  'anything allocated before; mutating the copy leaves every older object unchanged), compatible_sound_partial (a passing '
+                  'check implies every value of the first value set is accepted by the second type), compatible_complete (the check '
+                  'passes on the nested pairings of the statement), table facts of DATATYPES / exported properties by decide.  Models '
+                  'tied to frappy/datatypes.py by a correspondence run on the real classes; Lean monitors judge every observed rebuild, '
+                  'copy (sharing partition, mutation of every object of the copy) and verdict, with a witness search through the real '
+                  'validate for passing verdicts.',
+    'level_note': 'Partial: compatible_sound excludes relative_resolution > 1 on the second type (hypothesis ResLeOne) and a member that is '
+                  'optional in the first struct and mandatory in the second (recorded finding, counterexample compatible_sound_fails '
+                  'proved); rebuild_equiv excludes a struct whose optional list names all members in another order (OptionalInOrder). '
+                  'Trusted: Lean kernel + axioms propext/Classical.choice/Quot.sound; LawfulFloatOps and CompatLaws for binary64 (both '
+                  'proved for the exact carrier Rat); scaled limits grid aligned and within the grid-law region (|index| <= 2^31).',
     'trusted': [
-        'binary64 restricted to non-NaN values satisfies LawfulFloatOps and CompatLaws (lean/FrappyProofs/Lemmas/CompatLaws.lean); '
-        'both are proved for the Rat carrier',
-        'grid law for scaled limits: round((k*scale)/scale) = k and (limit -/+ scale) </> limit for the limits drawn (|k| <= 2^31)',
+        'binary64 restricted to non-NaN values satisfies LawfulFloatOps (Base/Num.lean) and CompatLaws (Base/NumCompat.lean): tolerance '
+        'band order convex for relative_resolution <= 1, x - p <= x <= x + p for p >= 0, integers between convertible integers convert, '
+        'integers up to 2^64 convert, finiteness between finite bounds; both classes are proved for the Rat carrier '
+        '(FrappyProofs/Lemmas/CompatLawsRat.lean)',
+        'CompatLaws.sub_pos_lt / lt_add_pos (limit -/+ scale </> limit) are false for binary64 when scale < ulp(limit)/2; assumed for the '
+        'limits drawn (|grid index| <= 2^31)',
+        'ConstsOK2: +/-sys.float_info.max are canonical floats (x + 0.0 = x)',
         'FrappyDrive/FloatInst.lean: Float instance of FloatOps',
     ],
     'modelled_not_verified': [
         'frappy.properties.HasProperties (propertyDict order, setProperty/checkProperties) — DInfo.WF is what it enforces',
         'frappy.lib.enum.Enum (members sorted by value, dict keyed by names and values)',
         'json.dumps / json.loads of the datainfo (floats stay floats, integers stay integers, member order kept)',
-        'id()-walk over DataType instances, propertyValues dicts, member dicts / tuples, optional lists, Enum and EnumMember objects',
+        'id()-walk over DataType instances, propertyValues dicts, member dicts / tuples, optional lists, Enum and EnumMember objects: '
+        'the heap model copyH = read, copy, build allocates new objects by construction',
     ],
     'assumptions': ['generalConfig.lazy_number_validation is False (default)',
                     'scaled integers have grid-aligned limits (quantifier of the property)',
-                    'relative_resolution <= 1 on the second type of a double pair (compatible_sound)',
-                    'datainfo given to get_datatype: enum values are JSON integers, scale is a JSON number'],
+                    'relative_resolution <= 1 on the second type of a pair (hypothesis ResLeOne of compatible_sound_partial; with '
+                    'relative_resolution=2 the real check is unsound: FloatRange(-10,100) vs FloatRange(5,200), value -1)',
+                    'datainfo given to get_datatype: enum values are JSON integers, scale is a JSON number, optional is a list'],
 }
 
 FMAX = sys.float_info.max
